@@ -26,8 +26,41 @@ def first_diff(a, b):
     return "statistics differ" if a["stats"] != b["stats"] else "length differs"
 
 
+def arrivals_only(params):
+    """the workload a parameter set generates, canonicalised (no scheduler, no executor)"""
+    from eudoxia.simulator import parse_args_with_defaults
+    from eudoxia.workload import WorkloadGenerator
+    g = WorkloadGenerator(**parse_args_with_defaults(dict(params)))
+    out = []
+    for _ in range(int(params["duration"] * params["ticks_per_second"])):
+        out.append([[p.priority.value, [[s.baseline_cpu_seconds, s.scaling_func.__name__, s.memory_gb, s.storage_read_gb] for o in p.values for s in o.get_segments()]]
+                    for p in g.run_one_tick()])
+    return out
+
+
+def seed_sweep(ctx, rng):
+    """same parameters and seed -> same workload, for a sweep of seeds that includes 0 and other 'falsy-looking' values"""
+    base = {"duration": 30, "ticks_per_second": 10, "waiting_seconds_mean": 0.5, "num_pipelines": 2, "num_operators": 3}
+    seeds = [0, 1, 2, 7, 42, 2 ** 31 - 1] + [rng.randint(0, 10 ** 9) for _ in range(2 if ctx.quick() else 20)]
+    seen = {}
+    for sd in seeds:
+        params = {**base, "random_seed": sd}
+        a, b = arrivals_only(params), arrivals_only(params)
+        ctx.coverage["evaluations"] += 2
+        ctx.sit("seed_sweep_seed_zero" if sd == 0 else "seed_sweep")
+        if a != b:
+            viol(ctx, "not-reproducible", f"random_seed={sd}: two generators with identical parameters emit different workloads", {"params": params})
+        else:
+            ctx.coverage["distinct_nontrivial"] += 1
+        key = json.dumps(a)
+        if key in seen and seen[key] != sd:
+            viol(ctx, "seed-ignored", f"seeds {seen[key]} and {sd} give the same workload", {"params": params})
+        seen[key] = sd
+
+
 def run(ctx):
     rng = random.Random(ctx.seed)
+    seed_sweep(ctx, rng)
     n = 4 if ctx.quick() else 24
     for i in range(n):
         algo = ["priority", "naive", "priority-pool", "overbook", "template"][i % 5]
@@ -35,7 +68,7 @@ def run(ctx):
                   "num_pipelines": rng.randint(2, 4), "num_operators": rng.choice([3, 5]), "cpu_io_ratio": rng.choice([0.2, 0.5, 0.9]),
                   "num_pools": 2 if algo == "priority-pool" else rng.choice([1, 2, 3]), "cpus_per_pool": rng.choice([4, 16]), "ram_gb_per_pool": rng.choice([32, 64, 128]),
                   "multi_operator_containers": True if algo == "priority-pool" else rng.random() < 0.5, "allow_memory_overcommit": algo == "overbook",
-                  "random_seed": rng.randint(0, 10 ** 6)}
+                  "random_seed": 0 if i == 0 else rng.choice([1, 42, rng.randint(0, 10 ** 6)])}   # seed 0 is a seed like any other
         spec = {"params": params, "algo": algo}
         a = child(spec, 0)                                   # fresh interpreter
         b = child(spec, rng.randint(1, 10 ** 6))             # fresh interpreter, different hash seed
